@@ -891,14 +891,14 @@ DLLIMPORT cfg_value_t *cfg_setopt(cfg_t *cfg, cfg_opt_t *opt, const char *value)
 			if ((*opt->parsecb) (cfg, opt, value, &i) != 0)
 				return NULL;
 		} else {
-			int radix;
-			const char *int_str;
+			int radix, valid;
+			const char *int_str, *digit;
 			if (!value) {
 				errno = EINVAL;
 				return NULL;
 			}
 			// Guess radix
-			radix = 0;
+			radix = 10;
 			int_str = value;
 			if (value[0] == '0') {
 				switch (value[1]) {
@@ -912,11 +912,27 @@ DLLIMPORT cfg_value_t *cfg_setopt(cfg_t *cfg, cfg_opt_t *opt, const char *value)
 						break;
 					default:
 						radix = 8;
-						int_str = &value[1];
 				}
 			}
-			i = strtol(int_str, &endptr, radix);
-			if (*endptr != '\0') {
+			/* the whole token must be digits of that radix (a sign only for
+			 * decimal): strtol() itself would also take white space, a sign
+			 * or a second prefix here */
+			digit = int_str;
+			if (radix == 10 && (*digit == '+' || *digit == '-'))
+				digit++;
+			valid = *digit != '\0';
+			for (; valid && *digit; digit++) {
+				if (radix == 16)
+					valid = isxdigit((unsigned char)*digit) != 0;
+				else
+					valid = *digit >= '0' && *digit < '0' + radix;
+			}
+			if (valid) {
+				errno = 0;
+				i = strtol(int_str, &endptr, radix);
+				valid = *endptr == '\0';
+			}
+			if (!valid) {
 				cfg_error(cfg, _("invalid integer value for option '%s'"), opt->name);
 				return NULL;
 			}
@@ -936,8 +952,9 @@ DLLIMPORT cfg_value_t *cfg_setopt(cfg_t *cfg, cfg_opt_t *opt, const char *value)
 				errno = EINVAL;
 				return NULL;
 			}
+			errno = 0;
 			f = strtod(value, &endptr);
-			if (*endptr != '\0') {
+			if (!value[0] || isspace((unsigned char)value[0]) || *endptr != '\0') {
 				cfg_error(cfg, _("invalid floating point value for option '%s'"), opt->name);
 				return NULL;
 			}
